@@ -852,3 +852,90 @@ def impl_c09(case, scratch):
         ctx.db_conn.close()
         os.unlink(copy)
     return {"outcome": "ok", "results": results}
+
+
+# ---------------------------------------------------------------- C11
+def _c11_make_db(dirpath, n, big):
+    import sqlite3
+    p = os.path.join(dirpath, "w.db")
+    ctx = Wtp(db_path=p, quiet=True, quiet_output=True)
+    for i in range(n):
+        ctx.add_page("Page %d" % i, 0, ("orig %d " % i) + ("x" * 3000 if big else ""))
+    ctx.db_conn.commit()
+    ctx.db_conn.close()
+    return p
+
+
+def _c11_read(p):
+    import sqlite3
+    try:
+        ctx = Wtp(db_path=p, quiet=True, quiet_output=True)
+    except BaseException as e:  # noqa
+        return {"open": "raised:" + type(e).__name__ + ":" + str(e)[:80]}
+    try:
+        integ = [r[0] for r in ctx.db_conn.execute("PRAGMA integrity_check")]
+        rows = sorted((pg.title, (pg.body or "")[:12]) for pg in ctx.get_all_pages())
+        return {"open": "ok", "integrity": integ, "rows": rows}
+    except BaseException as e:  # noqa
+        return {"open": "ok", "read": "raised:" + type(e).__name__ + ":" + str(e)[:80]}
+    finally:
+        try:
+            ctx.db_conn.close()
+        except Exception:
+            pass
+
+
+def _c11_child(flow, p, k, extra):
+    import subprocess
+    import sys as _sys
+    env = dict(os.environ)
+    r = subprocess.run([_sys.executable, os.path.join(os.path.dirname(os.path.abspath(__file__)), "crash_child.py"), flow, p, str(k),
+                        json.dumps(extra)], capture_output=True, text=True, env=env, timeout=120)
+    lines = None
+    for l in r.stdout.splitlines():
+        if l.startswith("LINES="):
+            lines = int(l[6:])
+    return r.returncode, lines, r.stderr[-300:]
+
+
+import json  # noqa: E402
+
+
+def impl_c11(case, scratch):
+    """case: scenario, n pages, big, kill (k or None = dry run), second_kill (for the reopen after the crash)"""
+    import shutil
+    d = os.path.join(scratch, "c11_%d_%d" % (os.getpid(), next(_counter)))
+    os.makedirs(d)
+    try:
+        n = case["n"]
+        p = _c11_make_db(d, n, case.get("big", False))
+        jpath = os.path.join(d, "over.json")
+        over = {("Page %d" % i): {"namespace_id": 0, "body": "new %d" % i} for i in range(0, n, 2)}
+        over["Added page"] = {"namespace_id": 0, "body": "new added"}
+        with open(jpath, "w") as f:
+            json.dump(over, f)
+        extra = {"json": jpath, "close": case.get("close", True), "pages": [["Page %d" % i, "new %d" % i] for i in range(n)]}
+        sc = case["scenario"]
+        pre = []
+        if sc in ("restore", "restore-dirty"):
+            # first a complete override flow, cleanly (restore) or without closing (restore-dirty: -wal left behind)
+            ex2 = dict(extra, close=(sc == "restore"))
+            pre.append(_c11_child("override", p, 10 ** 9, ex2)[0])
+            flow = "reopen"
+        elif sc == "override":
+            flow = "override"
+        elif sc == "overwrite-only":
+            flow = "overwrite-only"
+        else:
+            flow = "backup-only"
+        k = case.get("kill") or 10 ** 9
+        rc, lines, err = _c11_child(flow, p, k, extra)
+        files = sorted(os.listdir(d))
+        rc2 = None
+        if case.get("second_kill"):
+            rc2, _, _ = _c11_child("reopen", p, case["second_kill"], extra)
+        res = _c11_read(p)
+        res.update({"outcome": "ok", "rc": rc, "lines": lines, "files": files, "rc2": rc2, "pre": pre, "err": err if rc not in (0, 9) else ""})
+        return res
+    finally:
+        shutil.rmtree(d, ignore_errors=True)
